@@ -30,7 +30,9 @@ impl Paths {
         let filename = "kern_".to_string()
             + &location
                 .iter()
-                .map(|(tag, pos)| format!("{tag}_{:.2}", pos.to_f64()))
+                // `{}` is the shortest representation that round-trips, so distinct
+                // positions get distinct names; `{:.2}` merged e.g. 0.501 and 0.504.
+                .map(|(tag, pos)| format!("{tag}_{}", pos.to_f64()))
                 .collect::<Vec<_>>()
                 .join("_")
             + ".yml";
